@@ -820,6 +820,9 @@ def queries(draw, schema: Schema, feat: Features = None, fuel_range=(1, 3), extr
             tree = None
         else:
             nm = repr(names if len(names) > 1 or form != "bare" else names[0])
+            if nm.startswith("[") and g.chance(1, 3):
+                nm = repr(tuple(names))  # the names as a tuple literal: a list once the query has been through the text format
+                g.labels.add("ResultTTree-names-tuple")
             text = f"ResultTTree({text}, {nm}, {tree!r}, 'out.root')"
             g.labels.add("explicit-ResultTTree")
     return Query(text, schema.backend, cols, list(g.uses), g.labels, g.nops, tree, dict(g.excluded))
